@@ -116,6 +116,40 @@ core_case (const char *family, const unsigned char key[8], const unsigned char i
   return 0;
 }
 
+/* one key schedule, a sequence of operations without re-keying (direction switches must not disturb the schedule) */
+static void
+family_sequences (int t)
+{
+  unsigned char key[8], blk[8], out[8], ref[8];
+  struct des_ctx ctx;
+  struct rd_key K;
+  uint64_t a = vh_hash (&t, sizeof t, 777);
+  memcpy (key, &a, 8);
+  des_set_key (&ctx, key);
+  des_set_salt (&ctx, (t & 1) ? 0x5a5 : 0);
+  rd_setkey (&K, key);
+  for (int pat = 0; pat < 64; pat++)
+    {
+      /* 6 operations, direction bits from PAT */
+      des_set_key (&ctx, key);
+      for (int i = 0; i < 6; i++)
+        {
+          int dec = (pat >> i) & 1;
+          uint64_t b = vh_hash (&i, sizeof i, (uint64_t) t);
+          memcpy (blk, &b, 8);
+          des_crypt_block (&ctx, out, blk, 1, dec);
+          rd_crypt_block (&K, ref, blk, (t & 1) ? 0x5a5 : 0, 1, dec);
+          vh_stat ("evaluations", 1);
+          vh_stat ("core_cases", 1);
+          if (memcmp (out, ref, 8))
+            {
+              vh_viol ("des-core-differs-from-FIPS46-3/operation-sequence", "{\"family\":\"sequence on one key schedule\",\"key\":\"%s\",\"direction_pattern\":%d,\"step\":%d,\"replay\":\"seq\"}", vh_hex (key, 8), pat, i);
+              return;
+            }
+        }
+    }
+}
+
 static void
 bits_to_bytes_msb (const unsigned char *bits, unsigned char *out, int nbytes)
 {
@@ -381,35 +415,30 @@ api_histories (void)
     "setkey_r(obj,K2)", "encrypt_r(obj,e)" };
   static const unsigned char K1[8] = { 0x13, 0x34, 0x57, 0x79, 0x9b, 0xbc, 0xdf, 0xf1 }, K2[8] = { 0xfe, 0xdc, 0xba, 0x98, 0x76, 0x54, 0x32, 0x10 };
   static const unsigned char B[8] = { 0x01, 0x23, 0x45, 0x67, 0x89, 0xab, 0xcd, 0xef };
-  /* model state: static key in {1,2}, object key in {0 = wiped/none (all-zero schedule), 1, 2}; the initial static key is set by the first op */
-  int seen[3][3] = { {0} };
-  struct { int sk, ok; int path[12]; int pl; } q[64];
-  int qh = 0, qt = 0, states = 0;
+  /* Every operation sequence up to depth 3 (11 + 11^2 + 11^3 = 1463 histories) is executed on a fresh object after setkey(K1)
+     and the last operation's observable result is compared with the key-register model (static key in {K1,K2}; object key in
+     {none, K1, K2}, reset by crypt_r).  Sequences are NOT merged by model state: an operation that is a no-op in the model
+     (encrypt, decrypt, crypt, crypt_gensalt) must also be one in the implementation, which only the following operations can show. */
+  int states = 0;
   long transitions = 0;
-  q[qt].sk = 1;
-  q[qt].ok = 0;
-  q[qt].pl = 0;
-  qt++;
-  seen[1][0] = 1;
-  states = 1;
   char kv[64], bv[64];
   unsigned char expect[8], got[8];
   struct rd_key RK;
-  while (qh < qt)
+  int seenm[3][3] = { {0} };
+  for (int depth = 1; depth <= 3; depth++)
     {
-      int cur = qh++;
-      for (int op = 0; op < NH; op++)
+      int total = 1;
+      for (int i = 0; i < depth; i++)
+        total *= NH;
+      for (int code = 0; code < total; code++)
         {
-          /* re-materialise: setkey(K1) then the path, on a fresh object */
+          int full[3], fl = depth, x = code;
+          for (int i = depth - 1; i >= 0; i--, x /= NH)
+            full[i] = x % NH;
           memset (RD, 0, sizeof *RD);
           vec_from_bytes (K1, 0, kv);
           p_setkey (kv);
-          int sk = 1, ok = 0;
-          int full[14], fl = 0;
-          for (int i = 0; i < q[cur].pl; i++)
-            full[fl++] = q[cur].path[i];
-          full[fl++] = op;
-          int bad = 0;
+          int sk = 1, ok = 0, bad = 0;
           for (int i = 0; i < fl && !bad; i++)
             {
               int o = full[i];
@@ -451,6 +480,11 @@ api_histories (void)
             }
           transitions++;
           vh_stat ("evaluations", 1);
+          if (!seenm[sk][ok])
+            {
+              seenm[sk][ok] = 1;
+              states++;
+            }
           if (bad)
             {
               char hist[400] = "setkey(K1)";
@@ -458,23 +492,14 @@ api_histories (void)
                 snprintf (hist + strlen (hist), sizeof hist - strlen (hist), " ; %s", hn[full[i]]);
               vh_viol (bad == 1 ? "obsolete-api/static key disturbed by another call" : "obsolete-api/object key disturbed", "{\"history\":\"%s\",\"model_static_key\":%d,\"model_object_key\":%d,\"replay\":\"hist\"}",
                        hist, sk, ok);
-              continue;
-            }
-          if (!seen[sk][ok] && qt < 64 && fl < 12)
-            {
-              seen[sk][ok] = 1;
-              states++;
-              q[qt].sk = sk;
-              q[qt].ok = ok;
-              memcpy (q[qt].path, full, sizeof (int) * (size_t) fl);
-              q[qt].pl = fl;
-              qt++;
+              goto done;
             }
         }
     }
+done:
   vh_stat ("history_states", states);
   vh_stat ("history_transitions", transitions);
-  vh_sample ("{\"histories\":\"key-register model\",\"states\":%d,\"transitions\":%ld,\"closure\":true,\"alphabet\":%d}", states, transitions, NH);
+  vh_sample ("{\"histories\":\"all sequences up to depth 3 against the key-register model\",\"model_states\":%d,\"histories\":%ld,\"alphabet\":%d}", states, transitions, NH);
 }
 
 /* white-box cross-check: the tree's own generator reproduces the checked-in tables */
@@ -537,6 +562,9 @@ main (int argc, char **argv)
       else if (!strcmp (vh_replay, "salt"))
         for (int i = 0; i < 42; i++)
           family_salt (i);
+      else if (!strcmp (vh_replay, "seq"))
+        for (int i = 0; i < 16; i++)
+          family_sequences (i);
       else if (!strcmp (vh_replay, "gcrypt"))
         family_gcrypt ();
       else if (!strcmp (vh_replay, "api"))
@@ -568,6 +596,9 @@ main (int argc, char **argv)
   for (int i = 0; i < 42; i++)
     if (vh_mine (idx++))
       family_salt (i);
+  for (int i = 0; i < 16; i++)
+    if (vh_mine (idx++))
+      family_sequences (i);
   for (int i = 0; i < 64; i++)
     if (vh_mine (idx++))
       family_api (i);
